@@ -57,6 +57,13 @@ fn main() {
             let r = if a[2] == "a" { get_amount_delta_a(p0, p1, l, up) } else { get_amount_delta_b(p0, p1, l, up) };
             match r { Ok(v) => println!("ok {}", v), Err(e) => println!("err {:?}", e) }
         }
+        // div <n_hi> <n_lo> <d_hi> <d_lo> <return_remainder>: U256Muldiv::div on (n_hi*2^128 + n_lo) / (d_hi*2^128 + d_lo); a panic is reported as such
+        "div" => {
+            let nh: u128 = a[2].parse().unwrap(); let nl: u128 = a[3].parse().unwrap(); let dh: u128 = a[4].parse().unwrap(); let dl: u128 = a[5].parse().unwrap(); let rr = a[6] == "true";
+            let r = std::panic::catch_unwind(|| { let (q, r) = U256Muldiv::new(nh, nl).div(U256Muldiv::new(dh, dl), rr);
+                (q.get_word(3), q.get_word(2), q.get_word(1), q.get_word(0), r.get_word(3), r.get_word(2), r.get_word(1), r.get_word(0)) });
+            match r { Ok(w) => println!("ok q=[{},{},{},{}] r=[{},{},{},{}]", w.0, w.1, w.2, w.3, w.4, w.5, w.6, w.7), Err(_) => println!("panic") }
+        }
         _ => { eprintln!("unknown command"); std::process::exit(2); }
     }
 }
